@@ -802,6 +802,14 @@ func (s *sut) vprProblems(o *observation) []problem {
 	}
 	inB := map[string]string{}
 	for _, b := range m.Buckets {
+		// vprStore.update keeps every bucket ordered by descending account id; the reward lottery walks the
+		// buckets in this order, so it is part of what all nodes must agree on
+		for k := 0; k+1 < len(b); k++ {
+			if b[k].ID <= b[k+1].ID {
+				ps = append(ps, problem{"bucket-order", fmt.Sprintf("a voting power bucket is not in descending account-id order: %v", vpList(b))})
+				break
+			}
+		}
 		for _, vp := range b {
 			if _, dup := inB[vp.Addr]; dup {
 				ps = append(ps, problem{"buckets", "voter " + vp.Addr + " is in the buckets twice"})
